@@ -15,6 +15,8 @@ from electrumx.server.controller import Notifications
 
 def kind_of(obligation):
     o = obligation or ''
+    if o.endswith('engine-error'):
+        return 'any'
     if 'agreed' in o:
         return 'agreed'
     if 'complete' in o:
@@ -93,6 +95,8 @@ async def run(seq):
 def search(kind, max_len=5, heights=(5, 6, 7)):
     ops = [('on_mempool', h) for h in heights] + [('on_block', h) for h in heights]
     want = {kind} if kind != 'complete' else {'complete', 'complete-after-fall'}
+    if kind == 'any':
+        want = {'agreed', 'lost', 'complete'}
     found = {}
     n = 0
     for length in range(1, max_len + 1):
@@ -105,7 +109,7 @@ def search(kind, max_len=5, heights=(5, 6, 7)):
                     for k, what in v:
                         if k in want and k not in found:
                             found[k] = (seq[:i + 1], what)
-        if kind in found or (kind == 'complete' and 'complete' in found):
+        if kind in found or (kind == 'complete' and 'complete' in found) or (kind == 'any' and found):
             break
     return found, n
 
@@ -122,8 +126,8 @@ def main():
     if kind == 'complete' and 'complete' not in found and 'complete-after-fall' in found:
         seq, what = found['complete-after-fall']
         print(json.dumps({'reproduced': True, 'class': 'KF-C20-1', 'input': seq, 'detail': what, 'sequences_tried': n}))
-    elif kind in found:
-        seq, what = found[kind]
+    elif kind in found or (kind == 'any' and found):
+        seq, what = found[kind] if kind in found else sorted(found.items())[0][1]
         print(json.dumps({'reproduced': True, 'input': seq, 'detail': what, 'sequences_tried': n}))
     else:
         print(json.dumps({'reproduced': False, 'detail': f'no {kind} violation in {n} call sequences', 'sequences_tried': n}))
